@@ -1,0 +1,10 @@
+//go:build verif
+
+package tx_pool
+
+// Add-only wrapper for the out-of-tree verification harness (/verif, family `peer`, property C18):
+// the reactor's message decoder.  Not compiled without the build tag `verif`.
+
+// VerifDecodeMsg is decodeMsg (wire bytes -> TxsMessage | PooledTransactions | NewPooledTransactionHashes |
+// RequestPooledTransactionHashes).
+func VerifDecodeMsg(bz []byte) (interface{}, error) { return decodeMsg(bz) }
